@@ -56,7 +56,7 @@ ReqAccepted(c) == ReqPlan(c).how = "unseg" \/ (ReqPlan(c).how = "seg" /\ CanRx(c
 AnnSA(c) == CanRx(c.cSeg)
 AnnMaxResp(c) == c.cMax                  \* the six standard sizes are code points: no rounding
 AnnMaxSegs(c) == SegsOnWire(c.cSegs)
-RespLimit(c) == Min(AnnMaxResp(c), c.sMax)      \* never more than the server itself can build
+RespLimit(c) == AnnMaxResp(c)      \* what the requester announced (the server's own receive limit does not bound what it sends)
 RespPlan(c) ==
     IF c.lr + HdrAckUnseg <= RespLimit(c) THEN [how |-> "unseg", n |-> 1, size |-> c.lr + HdrAckUnseg]
     ELSE IF ~CanTx(c.sSeg) \/ ~AnnSA(c) THEN [how |-> "abort", n |-> 0, size |-> 0]
@@ -68,7 +68,9 @@ RespPlan(c) ==
 Decide(c) ==
     LET q == ReqPlan(c)
         r == RespPlan(c) IN
-    [req |-> q.how, reqN |-> q.n, reqMax |-> q.size,
+    [req |-> q.how,
+     \* a server that cannot receive segments aborts on the first one: only that one is ever seen
+     reqN |-> IF q.how = "seg" /\ ~CanRx(c.sSeg) THEN 1 ELSE q.n, reqMax |-> q.size,
      resp |-> IF ReqAccepted(c) THEN r.how ELSE "none", respN |-> IF ReqAccepted(c) THEN r.n ELSE 0,
      respMax |-> IF ReqAccepted(c) THEN r.size ELSE 0,
      outcome |-> IF q.how = "abort" THEN "abort_local"
@@ -78,7 +80,8 @@ Decide(c) ==
      reqWinOffer |-> IF q.how = "seg" THEN c.cPW ELSE 0,
      reqWinActual |-> IF q.how = "seg" /\ CanRx(c.sSeg) THEN Min(c.cPW, c.sPW) ELSE 0,
      respWinOffer |-> IF ReqAccepted(c) /\ r.how = "seg" THEN c.sPW ELSE 0,
-     respWinActual |-> IF ReqAccepted(c) /\ r.how = "seg" THEN Min(c.sPW, c.cPW) ELSE 0]
+     \* (ClientSSM.await_confirmation takes the window the server proposes as it is)
+     respWinActual |-> IF ReqAccepted(c) /\ r.how = "seg" THEN c.sPW ELSE 0]
 
 \* ---- C12 on an observation o of one transaction ------------------------------------------------
 \* o = [reqSegd, reqN, reqMax, respSegd, respN, respMax, outcome, sa, annMaxResp, annMaxSegs,
@@ -109,7 +112,10 @@ NoGratuitousAbort(c, o) == Decide(c).outcome = "ack" => o.outcome = "ack"
 ObsOfDecide(c) ==
     LET d == Decide(c) IN
     [reqSegd |-> d.req = "seg", reqN |-> d.reqN, reqMax |-> d.reqMax, respSegd |-> d.resp = "seg", respN |-> d.respN,
-     respMax |-> d.respMax, outcome |-> d.outcome, sa |-> AnnSA(c), annMaxResp |-> AnnMaxResp(c), annMaxSegs |-> AnnMaxSegs(c),
+     respMax |-> d.respMax, outcome |-> d.outcome,
+     \* nothing is announced if no request leaves the client
+     sa |-> d.req # "abort" /\ AnnSA(c), annMaxResp |-> IF d.req = "abort" THEN 0 ELSE AnnMaxResp(c),
+     annMaxSegs |-> IF d.req = "abort" THEN 0 ELSE AnnMaxSegs(c),
      reqWinOffer |-> d.reqWinOffer, reqWinActual |-> d.reqWinActual, respWinOffer |-> d.respWinOffer,
      respWinActual |-> d.respWinActual, served |-> ReqAccepted(c)]
 
